@@ -334,6 +334,22 @@ def r15_1_rewriters_stop_at_locked(ctx: Ctx) -> None:
     lockable = [c for c in kinds if m.const_property(c, "is_locked") is True]
     if not lockable:
         raise AnalysisError("no relation kind has a constant-True is_locked: the locking model changed")
+    # the property names the locked kinds: leaves and materializations, unconditionally
+    for c in kinds:
+        want = c.name in ("LeafRelation", "Materialization")
+        val = m.const_property(c, "is_locked")
+        inst = f"is_locked:{c.name}"
+        if val is want:
+            run.ok("R15.1", inst, {"is_locked": val})
+        else:
+            fn = m.method(c, "is_locked")
+            run.fail(
+                "R15.1",
+                inst,
+                f"{c.name}.is_locked is {'not a constant' if not isinstance(val, bool) else val}; "
+                + ("leaves and materializations are locked unconditionally (a payload cached on them must stay shared and nothing may be inserted upstream)" if want else "only leaves and materializations are locked"),
+                fi=fn,
+            )
     for f in rewriters:
         r = _relation_param(f)
         ev = ctx.ev(f)
@@ -828,3 +844,138 @@ def r14_5_noop_identity(ctx: Ctx) -> None:
                 f"transferring a relation to its own engine ({e.module.rel}:{e.name}) can return {sorted(srcs)} instead of the relation itself",
                 fi=tf,
             )
+
+
+# ------------------------------------------------------------------ R06.1 flags and their consumers
+
+
+def r06_1_flags(ctx: Ctx, rule: str = "R06.1") -> None:
+    """Triviality flags are defined exactly, and the short-cuts keyed on them use them the right way round."""
+    run, m = ctx.run, ctx.m
+    run.rule(
+        rule,
+        "flag definitions: is_join_identity <=> no columns and min_rows == max_rows == 1; is_trivial <=> that or "
+        "max_rows == 0; consumers (execute short-circuits, join elision, chain pruning) use them the right way round",
+        expected_min=8,
+    )
+    base = ctx.k.relation_root
+    ji = base.methods.get("is_join_identity")
+    if ji is None:
+        raise AnalysisError("BaseRelation.is_join_identity is missing")
+    from ..facts import facts_of
+
+    for i, p in enumerate(ctx.paths(ji)):
+        v = p.value
+        fs = {str(f) for f in facts_of(v, True)} if v is not None else set()
+        need = {"not TRUTH(self.columns)", "EQ(1, self.max_rows)", "EQ(1, self.min_rows)"}
+        if p.outcome == "return" and need <= fs and not any(f.startswith("OR(") for f in fs) and len(fs) == 3:
+            run.ok(rule, f"is_join_identity:path{i}", {"definition": src(v)})
+        else:
+            run.fail(
+                rule,
+                f"is_join_identity:path{i}",
+                f"is_join_identity is `{src(v)}`; a join identity has no columns and exactly one row (min_rows == max_rows == 1), "
+                f"missing {sorted(need - fs)}: joins with such a relation are elided, so a weaker test drops a real operand",
+                fi=ji,
+                node=p.node,
+            )
+    tr = base.methods.get("is_trivial")
+    if tr is not None:
+        for i, p in enumerate(ctx.paths(tr)):
+            v = p.value
+            ok = isinstance(v, ast.BoolOp) and isinstance(v.op, ast.Or) and {src(x) for x in v.values} in ({"self.is_join_identity", "self.max_rows == 0"}, {"self.is_join_identity", "0 == self.max_rows"})
+            if ok:
+                run.ok(rule, f"is_trivial:path{i}")
+            else:
+                run.fail(rule, f"is_trivial:path{i}", f"is_trivial is `{src(v)}`, not `is_join_identity or max_rows == 0`", fi=tr, node=p.node)
+    # consumers
+    ex = m.func(IT_ENGINE, "Engine.execute")
+    rel = [p for p in ex.params if p != "self"][0]
+    found = {"empty": False, "identity": False}
+    for p in ctx.paths(ex):
+        if p.outcome != "return" or any(s.kind == "case" for s in p.steps):
+            continue
+        facts = path_facts(p)
+        v = src(p.value)
+        if has_fact(facts, "EQ", tuple(sorted(("0", f"{rel}.max_rows"))), True):
+            found["empty"] = True
+            if v == "RowSequence([])":
+                run.ok(rule, "execute:max_rows==0")
+            else:
+                run.fail(rule, "execute:max_rows==0", f"a relation with max_rows == 0 executes to `{v}` instead of no rows", fi=ex, node=p.node)
+        elif has_fact(facts, "TRUTH", (f"{rel}.is_join_identity",), True):
+            found["identity"] = True
+            if v == "RowSequence([{}])":
+                run.ok(rule, "execute:is_join_identity")
+            else:
+                run.fail(rule, "execute:is_join_identity", f"a join identity executes to `{v}` instead of exactly one empty row", fi=ex, node=p.node)
+    join = ctx.op_class("Join")
+    jb = join.methods["_begin_apply"]
+    jp = [q for q in jb.params if q != "self"]
+    for i, p in enumerate(ctx.paths(jb)):
+        v = p.value
+        if p.outcome == "return" and isinstance(v, ast.Call) and (dotted(v.func) or "").split(".")[-1] == "IgnoreOne":
+            facts = path_facts(p)
+            arg = v.args[0] if v.args else kw(v, "ignore_lhs")
+            lhs_id = has_fact(facts, "TRUTH", (f"{jp[0]}.is_join_identity",), True)
+            rhs_id = has_fact(facts, "TRUTH", (f"{jp[1]}.is_join_identity",), True)
+            want = True if lhs_id else False if rhs_id else None
+            if want is not None and isinstance(arg, ast.Constant) and arg.value is want:
+                run.ok(rule, f"Join._begin_apply:IgnoreOne:path{i}")
+            else:
+                run.fail(rule, f"Join._begin_apply:IgnoreOne:path{i}", f"`{src(v)}` ignores the wrong operand (or is not guarded by is_join_identity of the ignored operand)", fi=jb, node=p.node, details=describe(p))
+    jf = join.methods["_finish_apply"]
+    jq = [q for q in jf.params if q != "self"]
+    for i, p in enumerate(ctx.paths(jf)):
+        v = p.value
+        if p.outcome == "return" and isinstance(v, ast.Name):
+            facts = path_facts(p)
+            other = jq[1] if v.id == jq[0] else jq[0]
+            if has_fact(facts, "TRUTH", (f"{other}.is_join_identity",), True):
+                run.ok(rule, f"Join._finish_apply:elide:path{i}")
+            else:
+                run.fail(rule, f"Join._finish_apply:elide:path{i}", f"the join is replaced by `{v.id}` although `{other}` was not tested to be a join identity", fi=jf, node=p.node, details=describe(p))
+    ig = ctx.op_class("IgnoreOne").methods["_finish_apply"]
+    iq = [q for q in ig.params if q != "self"]
+    for i, p in enumerate(ctx.paths(ig)):
+        facts = path_facts(p)
+        v = src(p.value)
+        if has_fact(facts, "TRUTH", ("self.ignore_lhs",), True):
+            ok = v == iq[1]
+        else:
+            ok = v == iq[0]
+        if ok:
+            run.ok(rule, f"IgnoreOne._finish_apply:path{i}")
+        else:
+            run.fail(rule, f"IgnoreOne._finish_apply:path{i}", f"IgnoreOne returns `{v}`: the ignored and the kept operand are swapped", fi=ig, node=p.node)
+    proc = m.func("_processor.py", "Processor._process_recursive")
+    n = 0
+    for i, p in enumerate(ctx.paths(proc)):
+        if p.outcome != "return" or not isinstance(p.value, ast.Tuple):
+            continue
+        kept = src(p.value.elts[0])
+        b = env_at(p).get(kept)
+        if not (isinstance(b, tuple) and b[0] == "unpack" and isinstance(b[1], ast.Call) and call_attr(b[1]) == "_process_recursive"):
+            continue
+        if not any(s.kind == "case" and s.value and "BinaryOperationRelation" in src(s.node.pattern) for s in p.steps):  # type: ignore[union-attr]
+            continue
+        # one processed operand is returned in place of the binary node: the other one must be statically empty
+        n += 1
+        sides = sorted(nm for nm, bb in env_at(p).items() if isinstance(bb, tuple) and bb[0] == "unpack" and isinstance(bb[1], ast.Call) and call_attr(bb[1]) == "_process_recursive" and bb[2] == 0)
+        others = [x for x in sides if x != kept]
+        facts = path_facts(p)
+        is_chain = any(f.kind == "ISINSTANCE" and f.polarity and f.args[1] == "Chain" for f in facts) or any(s.kind == "case" and s.value and src(s.node.pattern).startswith("Chain") for s in p.steps)  # type: ignore[union-attr]
+        ok = is_chain and len(others) == 1 and has_fact(facts, "EQ", tuple(sorted(("0", f"{others[0]}.max_rows"))), True)
+        if ok:
+            run.ok(rule, f"processor:chain-pruning:keeps-{kept}")
+        else:
+            run.fail(
+                rule,
+                f"processor:chain-pruning:keeps-{kept}",
+                f"the binary node is replaced by `{kept}` without the other operand ({', '.join(others)}) of a Chain having max_rows == 0: a branch that may have rows is dropped",
+                fi=proc,
+                node=p.node,
+                details=describe(p),
+            )
+    if n == 0:
+        raise AnalysisError("Processor chain pruning not found")
